@@ -1,9 +1,11 @@
 import json, subprocess, sys
 from pathlib import Path
 props = {json.loads(l)["id"]: json.loads(l) for l in open("/verif/properties.jsonl")}
-for pid in sys.argv[1:]:
+known = json.loads(open("/verif/known_findings.json").read())["findings"]
+NOT_COUNTED = open("/verif/tools/hunt_not_counted.txt").read() if Path("/verif/tools/hunt_not_counted.txt").exists() else ""
+for pid in [a for a in sys.argv[1:] if not a.isdigit()]:
     d = props[pid]
-    wt = Path(f"/tmp/hunt_{pid}")
+    wt = Path(f"/tmp/hunt{sys.argv[1] if sys.argv[1].isdigit() else ''}_{pid}")
     if not wt.exists():
         subprocess.run(["git", "-C", "/repo", "worktree", "add", "--detach", str(wt), "HEAD"], check=True, capture_output=True)
     text = f"{pid}: {d['title']}\n\nStatement:\n{d['statement']}\n\nQuantified over:\n{d['quantifier']['text']}\n\nCode anchors:\n"
@@ -23,6 +25,12 @@ Rules:
 - Group findings by root cause (the place in the source that would have to change), not by input. Aim for up to 5 distinct root causes; quality over quantity. Spend your effort on finding REAL ones - it is perfectly acceptable to report that you found none after a serious search; do not pad the report with doubtful ones.
 - Write `{wt}/_hunt/REPORT.md`: for each finding: name of the script, one-paragraph description (input, expected per the property, observed), the source location you believe is responsible, and your confidence that it is inside the property's stated domain. Also list briefly what you tried that held (so the search is documented).
 
-Report briefly what you found at the end.
+ALREADY KNOWN - do not report these or variants of them (open, recorded findings of this property):
+{chr(10).join("- " + f["what"] for f in known if f["property"] == pid and f["status"] == "open") or "- (none)"}
+Repaired recently (see `git log --grep fix:` for the full list) - do not report what those commits fixed.
+An earlier reviewer's claims that were judged OUTSIDE the property's stated domain or statement (do not repeat them):
+{NOT_COUNTED}
+
+If the Write tool refuses to create REPORT.md, put the full report in your final message instead (the repro scripts can be created with a shell heredoc). Report what you found at the end.
 """)
     print(wt)
